@@ -1745,6 +1745,9 @@ func buildCache(typ reflect.Type, cache map[string][]int, parent []int) {
 				buildCache(typ, cache, index)
 			}
 		}
-		cache[field.Name] = index
+		if old, ok := cache[field.Name]; !ok || len(index) < len(old) {
+			// a field of an embedded struct never hides a shallower (or earlier) field of the same name
+			cache[field.Name] = index
+		}
 	}
 }
